@@ -109,7 +109,13 @@ def run_value(mon, ds, capmod, v, rnd):
         except Exception as e:
             mon.raised(entry, v, e)
             return
-        mon.check_node(entry, v, pick(r))
+        try:
+            node = pick(r)
+        except (IndexError, AttributeError) as e:
+            ctx.case(f"{entry}|{type(v).__name__}|{v!r}", True)
+            ctx.violation(f"embedded-value-missing:{entry}", f"{entry}: value {v!r} is not where the query should hold it ({type(e).__name__}: {e}): {astx.unparse(r if isinstance(r, ast.AST) else r.query_ast)[:200]}", {"entry": entry, "value": repr(v)})
+            return
+        mon.check_node(entry, v, node)
 
     # direct helpers
     attempt("as_ast", lambda: as_ast(v), lambda r: r)
@@ -117,6 +123,36 @@ def run_value(mon, ds, capmod, v, rnd):
         attempt("as_literal", lambda: as_literal(v), lambda r: r)
     # metadata dictionaries: as value and as key
     attempt("MetaData.value", lambda: ds.MetaData({"k": v}), lambda s: s.query_ast.args[1].values[0])
+    # two consecutive MetaData blocks whose dictionaries compare equal but hold different values (1 / True / 1.0, 0.0 / -0.0), seen
+    # where a back end sees them: in the AST value() hands to the executor
+    tw = None
+    if isinstance(v, bool):
+        tw = int(v)
+    elif isinstance(v, int) and v in (0, 1):
+        tw = bool(v)
+    elif isinstance(v, int) and abs(v) < 2**53:
+        tw = float(v)
+    elif isinstance(v, float) and v == 0.0:
+        tw = -v
+    elif isinstance(v, float) and v.is_integer() and abs(v) < 2**53:
+        tw = int(v)
+    if tw is not None:
+        def unwrap(a, depth):
+            # the executor receives Select(MetaData(MetaData(ds, {k: v}), {k: tw}), ...)
+            n = a.args[0]
+            for _ in range(depth):
+                n = n.args[0]
+            return n.args[1].values[0]
+
+        chain = lambda: ds.MetaData({"k": v}).MetaData({"k": tw}).Select("lambda e: e.x").value()  # noqa
+        attempt("MetaData.value-then-equal-neighbour(executor)", chain, lambda a: unwrap(a, 1))
+        ctx.count("entry:MetaData.equal-neighbour-pairs")
+        try:
+            got = leval(unwrap(chain(), 0))[0]
+            if got != tw or type(got) is not type(tw) or (isinstance(tw, float) and repr(got) != repr(tw)):
+                mon.ctx.violation("value-altered:MetaData.equal-neighbour(executor)", f"MetaData({{'k': {v!r}}}).MetaData({{'k': {tw!r}}}): the executor's AST holds {got!r} ({type(got).__name__}) for the second block", {"entry": "MetaData.equal-neighbour", "value": repr(v)})
+        except Exception as e:
+            mon.ctx.violation(f"raised:MetaData.equal-neighbour(executor):{type(e).__name__}", f"MetaData({{'k': {v!r}}}).MetaData({{'k': {tw!r}}}).value(): {type(e).__name__}: {str(e)[:160]}", {"entry": "MetaData.equal-neighbour", "value": repr(v)})
     if isinstance(v, str):
         attempt("MetaData.key", lambda: ds.MetaData({v: 1}), lambda s: s.query_ast.args[1].keys[0])
         # names
